@@ -140,12 +140,14 @@ def full_args(e):
 
 # ---- Python source text ------------------------------------------------------------------------------
 def scalar_source(v):
-    if v is None or isinstance(v, (bool, int, str)):
+    if v is None or isinstance(v, (bool, str)):
         return repr(v)
+    if isinstance(v, int):
+        return "(%r)" % v if v < 0 else repr(v)          # -3 ** p is -(3 ** p)
     if isinstance(v, float):
         if v != v or v in (float("inf"), float("-inf")):
             return "float(%r)" % repr(v)
-        return repr(v)
+        return "(%r)" % v if math.copysign(1.0, v) < 0 else repr(v)
     raise TypeError("scalar_source: %r" % (v,))
 
 
